@@ -23,7 +23,7 @@ CHECKS = [
         "cancellation at each await) passes _resume(); that no public view (schema/params/status/traits/known_list/fault-log views, 59 "
         "properties) can raise ArithmeticError or a KeyError from a payload-derived key; that the fault-log map only holds timestamps present "
         "in the log; and that the gateway's message handlers and process_msg are fenced with entity handlers deferred. Does not decide "
-        "'every view after every history' beyond these classes, nor that foreign traffic never alters tracked state (behavioural). The view closure also excludes AssertionError from asserts on payload-derived data and IndexError from constant indexes into sequences of unproven length. Also decides: the array-fragment merge requires whole-source and code equality and a time window as conjuncts of its predicate.",
+        "'every view after every history' beyond these classes, nor that foreign traffic never alters tracked state (behavioural). The view closure also excludes AssertionError from asserts on payload-derived data and IndexError from constant indexes into sequences of unproven length. Also decides: the array-fragment merge requires whole-source and code equality and a time window as conjuncts of its predicate. Also decides (R5): a message whose payload a view iterates as a list of dicts is only parked under a list test of its payload, and every constant payload key a view subscripts is present in every dict its producing parser/helper returns.",
         "note": BASE_NOTE + " datetime within 10 years of datetime.min/max is outside the model for this property.",
     },
     {
